@@ -43,9 +43,19 @@ def read_all_events(inst, data, encoding, bc, blocked, limit=100000, style=0, pa
     """style 0: next() calls; 1: next() for the first record, then a for loop; 2: a for loop left with break after the
     first record and resumed with a second for loop; 3: one for loop"""
     fh = open(path, 'rb') if path else None          # a real file on disk instead of io.BytesIO
+    # otherwise: a plain buffer, a stream that cannot seek or tell, or a file positioned behind a consumed header
+    kind = drv.pick(7, 'ipmrfile', len(data), encoding, blocked, style) if not path and not drv.THREADED else 0
+    if kind == 2:
+        src = drv.new_file(data, kind='pipe')
+    elif kind == 5:
+        hdr = drv.HEADERS[drv.pick(3, 'ipmrhdr', len(data))]
+        src = io.BytesIO(hdr + data)
+        src.seek(len(hdr))
+    else:
+        src = fh or drv.new_file(data)
     try:
         with drv.Env('ipmrd', len(data), encoding, blocked, style, data[-3:]):
-            return _read_all(inst, fh or drv.new_file(data), encoding, bc, blocked, limit, style)
+            return _read_all(inst, src, encoding, bc, blocked, limit, style)
     finally:
         if fh:
             fh.close()
@@ -103,7 +113,18 @@ def write_file(msgs, encoding, bc, blocked, fins=('close',)):
 
 
 def _write_file(msgs, encoding, bc, blocked, fins):
+    # every fifth file is written behind a header that the caller put there first (the writer is handed the file
+    # positioned at its end, as with a transport header or a file opened for appending)
+    header = b''
     f = drv.new_file()
+    if not drv.THREADED and drv.pick(5, 'ipmwhdr', len(msgs), encoding, blocked) == 3:
+        header = drv.HEADERS[drv.pick(3, 'ipmwh', len(msgs))]
+        f.write(header)
+    data = _write_file_on(f, msgs, encoding, bc, blocked, fins)
+    return data[len(header):] if header and data[:len(header)] == header else data
+
+
+def _write_file_on(f, msgs, encoding, bc, blocked, fins):
     w = mciipm.IpmWriter(f, encoding=encoding, iso_config=bc, blocked=blocked)
     for m in msgs:
         w.write(dict(m))
